@@ -213,6 +213,36 @@ def h_verify(curve, sig_prefix, public=True):
     return h
 
 
+def h_verify_twice(curve):
+    """the verdict depends on the key: the same (signature, message) accepted under one key must still be checked under another"""
+    from pytezos.crypto.key import Key
+
+    def h(e: Engine):
+        rec = Rec()
+        verdicts = [z3.BoolVal(True), z3.BoolVal(False)]
+        state = {'i': 0}
+
+        class V:
+            pass
+        # a verdict that changes between the two calls: first key accepts, second key rejects
+        import z3 as _z3
+        install(e, rec, _z3.BoolVal(True))
+        key_a, key_b = mk_key(curve), mk_key(curve)
+        key_b.f['public_point'] = Tok('other_pk')
+        sigp = curve + b'sig'
+        sig, msg = SigTok(sigp), Tok('m')
+        r1 = e.call(BoundM(Key.__dict__['verify'], key_a), [sig, msg], {})
+        install(e, rec, _z3.BoolVal(False))
+        tag = f'Key.verify[{curve.decode()},same signature and message under a different key]'
+        try:
+            e.call(BoundM(Key.__dict__['verify'], key_b), [sig, msg], {})
+        except RaiseEx as ex:
+            e.check(f'{tag}::raises.ValueError_when_the_primitive_rejects', z3.BoolVal(isinstance(ex.exc, ValueError)))
+            return
+        e.check(f'{tag}::ensures.rejected(no verdict reuse across keys)', z3.BoolVal(False))
+    return h
+
+
 def h_pkh(curve):
     from pytezos.crypto.key import Key
 
@@ -254,6 +284,9 @@ def run_sign_verify(ck):
             functions_interpreted(ck, eng)
         eng = Engine()
         run_harness(ck, eng, h_verify(curve, b'sig', public=False), f'verify[{curve},nopublic]')
+        report(ck, eng, [])
+        eng = Engine()
+        run_harness(ck, eng, h_verify_twice(curve), f'verify_twice[{curve}]')
         report(ck, eng, [])
 
 
